@@ -323,7 +323,13 @@ def judgeCli (toks : List String) (out : List String) : String :=
         | some evs, some nw =>
           let np := evs.foldl (fun acc e => max acc (e.pipe + 1)) 0
           let s0 := State.init nw ((List.range np).map (inferPipe evs))
-          let sent := evs.filterMap (fun e => if e.kind = "wsent" then some (e.wid, e.pipe, e.n) else none)
+          -- the select took the send branch: `wsent` was logged — or the process exited before the worker could log it,
+          -- but the consumer logged the receipt of that batch
+          let sent := evs.filterMap (fun e =>
+            if e.kind = "wsent" then some (e.wid, e.pipe, e.n)
+            else if e.kind = "wsel" ∧ !(evs.any (fun x => (x.kind = "wsent" ∨ x.kind = "wdrop") ∧ x.wid = e.wid ∧ x.pipe = e.pipe ∧ x.n = e.n))
+                    ∧ evs.any (fun x => x.kind = "crecv" ∧ x.pipe = e.pipe ∧ x.n = e.n) then some (e.wid, e.pipe, e.n)
+            else none)
           match replayCli sent s0 evs 0 with
           | .error why => "bad trace-is-not-a-path " ++ why
           | .ok _ => "ok"
